@@ -1222,7 +1222,13 @@ def _b_list(it, args, kw):
         run = it.run
         arr = run.fresh('aslist', z3.ArraySort(z3.IntSort(), SORTS[v.dtype]))
         f = v.fn
-        fact(run, QA(v.shape[0], lambda j: arr[j] == f(j)))
+        df = QA(v.shape[0], lambda j: arr[j] == f(j))
+        if getattr(run, 'np_defer_facts', False):
+            # proof engineering: the contract adds the defining fact where it is needed (Run.np_deferred) instead of
+            # exposing it to every later obligation of the path
+            run.__dict__.setdefault('np_deferred', []).append(df)
+        else:
+            fact(run, df)
         r = SymList(zi(v.shape[0]), arr, v.dtype)
         r.of_array = v.copy()
         return r
